@@ -292,6 +292,9 @@ struct WorldSO : World, Net {
   }
 
   void check_c09(const std::vector<std::string> &segs, const std::string &outs) {
+    // an injected allocation failure may end the attempt with a temporary failure at any point; it never justifies success
+    { bool alloc_fault = false; for (auto &f : plan->faults) if (f.kind == "null") alloc_fault = true;
+      if (alloc_fault && !segs.empty() && segs.back().compare(0, 14, "ZOut of memory") == 0) { for (size_t i = 0; i + 1 < segs.size(); i++) if (!segs[i].empty() && segs[i][0] == 'K') { violate("C09.false-success", outs); return; } k->probe("c09_out_of_memory_is_temporary"); return; } }
     // expected verdicts from the script
     std::vector<char> want_rcpt; char fin = 0; bool dup_warn = false; bool connected = false;
     // which address accepted the connection?
